@@ -246,7 +246,7 @@ func (l *Lexer) shiftRawText() []byte {
 						}
 						l.r.Move(1)
 					}
-					if h := ToHash(parse.ToLower(parse.Copy(l.r.Lexeme()[mark+2:]))); h == l.rawTag { // copy so that ToLower doesn't change the case of the underlying slice
+					if h := ToHash(parse.ToLower(parse.Copy(l.r.Lexeme()[mark+2:]))); h == l.rawTag && l.atEndOfTagName() { // copy so that ToLower doesn't change the case of the underlying slice
 						l.r.Rewind(mark)
 						return l.r.Shift()
 					}
@@ -276,7 +276,7 @@ func (l *Lexer) shiftRawText() []byte {
 								}
 								l.r.Move(1)
 							}
-							if h := ToHash(parse.ToLower(parse.Copy(l.r.Lexeme()[mark:]))); h == Script { // copy so that ToLower doesn't change the case of the underlying slice
+							if h := ToHash(parse.ToLower(parse.Copy(l.r.Lexeme()[mark:]))); h == Script && l.atEndOfTagName() { // copy so that ToLower doesn't change the case of the underlying slice
 								if !isEnd {
 									inScript = true
 								} else {
@@ -717,6 +717,12 @@ func (l *Lexer) moveTemplate() {
 }
 
 ////////////////////////////////////////////////////////////////
+
+// atEndOfTagName returns true if the tag name before the current position is complete: it is followed by whitespace, a slash, > or the end of the input.
+func (l *Lexer) atEndOfTagName() bool {
+	c := l.r.Peek(0)
+	return c == ' ' || c == '>' || c == '/' || c == '\t' || c == '\n' || c == '\r' || c == '\f' || c == 0 && l.r.Err() != nil
+}
 
 func (l *Lexer) at(b ...byte) bool {
 	for i, c := range b {
